@@ -22,9 +22,20 @@ trace under the reference semantics where every variable denotes a cell holding 
 theorem C06_program (prog : List Stmt) : run init prog = runS initS prog :=
   Proofs.HeapSim.sim_run Proofs.HeapSim.sim_init prog
 
+/-- sanity instance: `np.unique` gives an array of its own -- a later write into the source does not reach it
+(also when no row has more than one cell, where the result holds the same rows as the source) -/
+theorem unique_example : run init [.new [[3, 1, 3], [], [2]], .unique 0, .new [[5], []], .unique 2,
+      .assign 0 (.rowcol (.int 0) (.int 0)) (.scalar 9), .assign 2 (.rowcol (.int 0) (.int 0)) (.scalar 9), .read 1, .read 3] =
+    [.made true, .made true, .made true, .made true, .made true, .made true,
+     .rows (some [[1, 3], [], [2]]), .rows (some [[5], []])] := by
+  rw [C06_program]
+  simp [runS, stepS, stepNewS, initS, Store.alloc, Store.val, Store.var, Spec.dedupCounts, List.mergeSort]
+  decide
+
+
 /-- reference semantics: every creating statement other than `alias` puts its result in a FRESH cell -/
 theorem C06_fresh_cell (s : Store) (st : Stmt) (hc : match st with
-      | .new _ | .select _ _ | .addScalar _ _ | .addArrays _ _ | .concat _ _ | .sort _ | .cumsum _ | .diff _ => True
+      | .new _ | .select _ _ | .addScalar _ _ | .addArrays _ _ | .concat _ _ | .sort _ | .cumsum _ | .diff _ | .unique _ => True
       | _ => False)
     (hok : (stepS s st).2 = .made true) :
     (stepS s st).1.vars = s.vars ++ [some s.cells.length] ∧ (stepS s st).1.cells.length = s.cells.length + 1 := by
